@@ -467,19 +467,19 @@ func Replay(scenario string, raw json.RawMessage) []*mc.Violation {
 	switch scenario {
 	case "archset-matches":
 		var in SetIn
-		if json.Unmarshal(raw, &in) == nil {
+		if mc.UnmarshalInput(raw, &in) == nil {
 			if v := checkSet(scenario, in); v != nil {
 				return []*mc.Violation{v}
 			}
 		}
 	case "possibility-selection":
 		var in PossIn
-		if json.Unmarshal(raw, &in) == nil {
+		if mc.UnmarshalInput(raw, &in) == nil {
 			return checkPoss(scenario, in)
 		}
 	case "version-constraint":
 		var in SatIn
-		if json.Unmarshal(raw, &in) == nil {
+		if mc.UnmarshalInput(raw, &in) == nil {
 			valid := true
 			for _, n := range invalidNumbers {
 				if n == in.N {
@@ -492,7 +492,7 @@ func Replay(scenario string, raw json.RawMessage) []*mc.Violation {
 		}
 	default:
 		var in IsIn
-		if json.Unmarshal(raw, &in) == nil {
+		if mc.UnmarshalInput(raw, &in) == nil {
 			return checkIs(scenario, in)
 		}
 	}
